@@ -332,6 +332,14 @@ func genC32(seed uint64, tier string) any {
 				}
 				sc.Client.MaxVersion, sc.Server.MaxVersion, sc.Client.MinVersion, sc.Server.MinVersion = 0, 0, 0, 0
 			}
+			if len(sc.Client.Curves) == 0 && sc.PSK == 0 && r.Chance(1, 8) {
+				// a client that lists a TLS-1.3-only hybrid group ends up on TLS 1.2 ECDHE, and the ServerKeyExchange names
+				// that very group (which the client offered but cannot compute below TLS 1.3)
+				sc.Client.Curves = []uint16{4588, 29, 23}
+				sc.Client.MinVersion, sc.Client.MaxVersion, sc.Server.MinVersion, sc.Server.MaxVersion = 0, vTLS12, 0, vTLS12
+				sc.Client.Suites, sc.Server.Suites, sc.Client.ForceSuites = nil, nil, false
+				sc.HSEdits = append(sc.HSEdits, hsEdit{Dir: 1, Type: 12, Op: "set", Ext: -2, Sel: 1, Val: 4588})
+			}
 			if len(sc.Client.Curves) == 0 && r.Chance(1, 2) {
 				// pin one (version, suite) pair: every key-exchange method meets the edits
 				pr := c25Pairs[r.Intn(len(c25Pairs))]
